@@ -177,6 +177,7 @@ func runHistory(dir string, seed uint64, spec PropSpec, shipped string) (*Case, 
 				}
 			}
 		}
+		wasApart := e.desync // handle and file were apart when this operation started
 		obs := e.Apply(op)
 		c.Ops = append(c.Ops, op)
 		c.record(idx, op, obs)
@@ -207,10 +208,12 @@ func runHistory(dir string, seed uint64, spec PropSpec, shipped string) (*Case, 
 				v = oracleC01(e, i, op, res, before)
 			case o == "C02" && (isMutator(op.Kind) || op.Kind == "create" || op.Kind == "reload" || op.Kind == "load"):
 				v = oracleC02(e, st, i, op, res)
-			case o == "C03" && (op.Fault != "" || e.desync) && isMutator(op.Kind):
+			case o == "C03" && (op.Fault != "" || e.desync || wasApart) && isMutator(op.Kind):
+				st.afterFault = true
 				// the store failed a call of this operation (or of an earlier one and nothing has been
 				// written since): what the *file* holds half-way is C09's subject; the comparison
-				// resumes, from the file as it is now, with the next operation that completes
+				// resumes, from the file as it is now, after the next operation that completes (that
+				// operation flushes what the handle had and the file had not: not a change of its own)
 				st.prevBytes, st.havePrev = e.storeBytes(), false
 			case o == "C03" && (isMutator(op.Kind) || op.Kind == "create" || op.Kind == "load"):
 				if op.Kind == "create" || op.Kind == "load" {
@@ -362,6 +365,7 @@ func runHistory(dir string, seed uint64, spec PropSpec, shipped string) (*Case, 
 			g.badMagicVersion(img)
 		}
 		emit(&Op{Kind: "mkimg", Img: img})
+		g.noGrow = img.TableBehind
 		if img.TableBehind {
 			truncated = true // the layout is outside the invariant's hypotheses: behaviour is compared, the invariant is not asserted
 		}
